@@ -52,6 +52,7 @@ type World struct {
 	privMemo map[*ssa.Alloc]bool
 	boxed map[string]bool
 	privMapMemo map[ssa.Value]bool
+	stableFams map[string]*stableDecl
 }
 
 type contractErr struct{ file, msg, raw string }
@@ -156,6 +157,7 @@ func (w *World) loadContracts(dirs []string) error {
 			}
 		}
 	}
+	w.resolveStables()
 	return nil
 }
 
